@@ -820,6 +820,21 @@ func c12Legacy(run *vfRun, t *testing.T) {
 				r1 := b.Get(p, "/x", "X-Vf-Id", uid)
 				served1 := len(w.Up.FindHit(uid)) > 0
 				left := len(b.Jar.For("proxy.test", "/", false))
+				// a client that does not honour deletions (the very user whose token the provider no longer accepts) keeps every
+				// session cookie the refusing response carried: presented again — validation still failing — it must not be served
+				var kept []string
+				for _, line := range r1.SetCookies() {
+					if ck, err := http.ParseSetCookie(line); err == nil && ck.Value != "" && ck.MaxAge >= 0 && strings.HasPrefix(ck.Name, p.Opts.Cookie.Name) && !strings.HasSuffix(ck.Name, "_csrf") {
+						kept = append(kept, ck.Name+"="+ck.Value)
+					}
+				}
+				servedKept, keptCode := false, 0
+				if len(kept) > 0 && age > time.Minute && kind != "200" {
+					rk := p.Do(vfGET("/x", "X-Vf-Id", uid+"-k").H("Cookie", strings.Join(kept, "; ")))
+					keptCode = rk.Code
+					servedKept = len(w.Up.FindHit(uid+"-k")) > 0
+					run.Count("legacy_refusals_that_carried_a_session_cookie", 1)
+				}
 				w.IdP.Set(func(c *vfIdPCfg) { c.Hook = nil })
 				r2 := b.Get(p, "/x", "X-Vf-Id", uid+"-b")
 				served2 := len(w.Up.FindHit(uid+"-b")) > 0
@@ -833,6 +848,10 @@ func c12Legacy(run *vfRun, t *testing.T) {
 						run.Violation("c12:revalidated-request-not-served", fmt.Sprintf("legacy provider, store %s, age %v, validation endpoint healthy: request refused (%d)", store, age, r1.Code), detail)
 					}
 				default:
+					if servedKept {
+						detail["kept_cookies"] = len(kept)
+						run.Violation("c12:refusal-hands-out-honoured-credential", fmt.Sprintf("legacy provider, store %s: the stale session was refused (%d, validation answer %s), but the refusing response itself carries a re-stamped session cookie which — presented while validation still fails — is served (%d) without any validation", store, r1.Code, kind, keptCode), detail)
+					}
 					if served1 || r1.Code == 200 {
 						run.Violation("c12:stale-session-honoured", fmt.Sprintf("legacy provider, store %s: stale session served (%d) although the validation endpoint answered %s (neither refreshed nor validated)", store, r1.Code, kind), detail)
 					} else if left != 0 {
